@@ -34,8 +34,9 @@ Proof. exact linux_methods_sound. Qed.
 Print Assumptions C03_linux_methods_sound.
 
 (* parent(), parents(), children(), children(recursive=True), process_iter(attrs) -- in worlds where the OTHER
-   processes (parent, children, listed pids) may vanish at any access too: the same, except that NoSuchProcess /
-   ZombieProcess / AccessDenied raised by a query on another Process object carries that process's pid *)
+   processes (parent, children, listed pids) may vanish at any access too: the same, except that an AccessDenied
+   raised by a query on another Process object carries that process's pid; NoSuchProcess / ZombieProcess about
+   another process never escape (a relative that vanished is left out; parents() ends its chain, commit 671469c) *)
 Theorem C03_tree_methods_sound : forall w, base_ok opt_half w -> forall p, In p tree_scripts ->
   forall s, s_cache s = false -> allowed_tree (fst (run w p s)) (gone w (snd (run w p s))).
 Proof. exact tree_methods_sound. Qed.
